@@ -320,6 +320,43 @@ def check_translation_cases(report, rule, tc, fq, roles, call):
 
 
 
+def check_assignment_capped(p, report, rule):
+    """The number of annotators assigned to a chosen sample never exceeds the number available for
+    it: every definition of the returned per-sample count is np.minimum(<available count>, ...)."""
+    sa = p.get_class("SingleAnnotatorWrapper")
+    na = c01.method_by_role(sa, "_n_to_assign_annotators", lambda n: c01._calls(n, {"minimum"}) and any(
+        isinstance(x, (ast.For, ast.While)) for x in ast.walk(n)))
+    if na is None:
+        raise AnalysisError("SingleAnnotatorWrapper: annotator-assignment helper vanished")
+    # the count vector: what is returned, or (helper inlined into its caller) what the selection loop indexes
+    rets = {n.value.id for n in ast.walk(na.node) if isinstance(n, ast.Return) and isinstance(n.value, ast.Name)}
+    mins = {t.id for n in ast.walk(na.node) if isinstance(n, ast.Assign) and isinstance(n.value, ast.Call)
+            and c01.callname(n.value) in ("minimum", "np.minimum") for t in n.targets if isinstance(t, ast.Name)}
+    names = (rets & mins) or mins
+    # available counts: np.sum(A, axis=1) and what is selected from it
+    avail = set()
+    for _ in range(3):
+        for n in ast.walk(na.node):
+            if isinstance(n, ast.Assign) and len(n.targets) == 1 and isinstance(n.targets[0], ast.Name):
+                v = n.value
+                txt = ast.unparse(v).replace(" ", "")
+                if ("sum(" in txt and "axis=1" in txt) or (names_in(v) & avail and isinstance(v, (ast.Subscript, ast.Name))):
+                    avail.add(n.targets[0].id)
+    k = 0
+    for n in ast.walk(na.node):
+        if isinstance(n, ast.Assign) and any(isinstance(t, ast.Name) and t.id in names for t in n.targets):
+            v = n.value
+            capped = isinstance(v, ast.Call) and c01.callname(v) in ("minimum", "np.minimum") and any(
+                (names_in(a) & avail) or ("sum(" in ast.unparse(a) and "axis=1" in ast.unparse(a).replace(" ", "")) for a in v.args)
+            k += 1
+            report.add(rule, na.qual, f"`{norm_stmt(n, 60)}` is capped by the available annotators", f"{na.file}:{n.lineno}", capped,
+                       detail="np.minimum(<available>, ...)" if capped else
+                       "the per-sample annotator count is not limited by the number of available annotators: a sample is "
+                       "assigned more annotators than it has, the selection loop then falls through to another sample's pairs")
+    if k == 0:
+        raise AnalysisError("annotator-assignment helper: no definition of the per-sample count found")
+
+
 def avail_names_early(tc):
     out = set()
     for n in ast.walk(tc.node):
@@ -562,6 +599,10 @@ def run(p, report, tier):
                bool(loops) and not bad_loops,
                detail="; ".join(f"`{norm_stmt(x, 50)}` has no progress test" for x in bad_loops) or
                "for-loop over a finite range / while loop of a terminating class")
+    report.rule("R7.7", "a requested number of annotators per sample is honoured up to what is available: every "
+                "definition of the per-sample count in the annotator-assignment step is np.minimum(<available count>, ...)",
+                floor=2)
+    check_assignment_capped(p, report, "R7.7")
     for f in (sq, q, g, na, ie):
         if f is None:
             continue
